@@ -3,7 +3,7 @@
     shardedSearcher.List aggregation).  Per-shard search is the reference meaning [eval] of the query on the
     shard's documents; content atoms are arbitrary per-document predicates; shards are arbitrary lists of
     repositories (simple, compound, a repository split over several shards, unknown repository lists). *)
-From ZV Require Import Lib.Base Model.Shards Proofs.Shards Proofs.ShardsBranches Generated.C18Rewrite.
+From ZV Require Import Lib.Base Model.Shards Proofs.Shards Proofs.ShardsBranches Proofs.ShardsMemo Generated.C18Rewrite.
 Require Coq.Strings.String.
 Import Coq.Strings.String.StringSyntax.
 Delimit Scope string_scope with string.
@@ -24,7 +24,10 @@ Theorem C18_select_pointwise : forall shards cs sel cs',
        forall rd d, In rd (sh_parts s) -> In d (snd rd) -> eval_top no_tr cs (fst rd) d = false) /\
     (forall s, In s shards -> keep s = true ->
        forall rd d, In rd (sh_parts s) -> In d (snd rd) -> eval_top no_tr cs' (fst rd) d = eval_top no_tr cs (fst rd) d).
-Proof. intros shards cs sel cs' H. exact (do_select_spec no_tr cs [] shards sel cs' H). Qed.
+Proof.
+  intros shards cs sel cs' H. unfold select, select_gen in H. rewrite do_select_coded_eq in H.
+  exact (do_select_spec no_tr cs [] shards sel cs' H).
+Qed.
 Print Assumptions C18_select_pointwise.
 
 (** FileMatch.Branches (indexData.gatherBranches: the branches contributed by the visited branch atoms of the
@@ -96,6 +99,59 @@ Proof.
 Qed.
 Print Assumptions C18_rewrite_table_matches_model.
 
+(** The two loops that decide which shards are searched and whether the filter may be dropped, AS CODED: the statement
+    lists are regenerated from search/shards.go on every run (Generated/C18Rewrite.v) and are the ones [has_repos] /
+    [select_loop] transcribe (what [select], and so every theorem above, executes).  hasReposForPredicate looks at EVERY
+    repository of the shard — any = some repository satisfies the predicate, all = every one does (no early exit at the first
+    hit) —; the shard loop keeps a shard iff its repository list is unknown or any, and filteredAll holds iff every kept
+    shard is known and all of its repositories satisfy the predicate.  Only then is the filter replaced. *)
+Theorem C18_select_loops_as_coded :
+  c18_hasrepos_loop = ["any = false"; "all = true"; "for _, repo := range repos {"; "b := pred(repo)"; "any = any || b";
+                       "all = all && b"; "}"; "return any, all"]%string /\
+  c18_shard_loop = ["for _, s := range shards {"; "if s.repos == nil {"; "filtered = append(filtered, s)"; "filteredAll = false";
+                    "} else if any, all := hasRepos(s.repos); any {"; "filtered = append(filtered, s)";
+                    "filteredAll = filteredAll && all"; "}"; "}"]%string /\
+  (forall p repos, has_repos p repos = (existsb p repos, forallb p repos)) /\
+  (forall p shards,
+     let kept := filter (fun s => negb (sh_known s) || existsb p (sh_repos s)) shards in
+     select_loop p shards = (kept, forallb (fun s => sh_known s && forallb p (sh_repos s)) kept)) /\
+  (forall shards cs sel cs' s r, select shards cs = (sel, cs') -> cs' <> cs -> In s sel -> In r (sh_repos s) ->
+     exists pre c rest p, cs = pre ++ c :: rest /\ child_pred c = Some p /\ p r = true).
+Proof.
+  split; [reflexivity|]. split; [reflexivity|]. split; [exact has_repos_spec|]. split; [exact select_loop_spec|].
+  intros shards cs sel cs' s r H Hne Hs Hr. unfold select, select_gen in H. rewrite do_select_coded_eq in H.
+  destruct (do_select_shape cs [] shards sel cs' H) as [E | (mid & c & c' & rest & p & E1 & E2 & Hc & Hrw & Hall)].
+  - exfalso. apply Hne. cbn in E. exact E.
+  - exists mid, c, rest, p. cbn in E1. split; [exact E1|]. split; [exact Hc|].
+    apply (forallb_In _ _ _ r (Hall s Hs) Hr).
+Qed.
+Print Assumptions C18_select_loops_as_coded.
+
+(** Sharing evaluated type:repo children inside one request (a memo keyed by [key child]; the tree has none: every atom
+    lists ITS OWN child, [expand], which is what [C18_typerepo_equiv] is about) keeps the reference meaning exactly under the
+    side condition that equal keys imply equal meaning of the children, e.g. an injective key ... *)
+Theorem C18_typerepo_memo_sound : forall (K : Type) (keqb : K -> K -> bool) (key : Q -> K),
+  (forall a b, keqb a b = true -> a = b) ->
+  (forall c1 c2, key c1 = key c2 -> forall r d, eval no_tr c1 r d = eval no_tr c2 r d) ->
+  forall shards q,
+    (forall r d, eval no_tr (fst (expand_memo keqb key shards q [])) r d = eval (tr_ref (depth q) shards) q r d) /\
+    sharded_search shards [fst (expand_memo keqb key shards q [])] = sharded_search shards [expand shards q].
+Proof.
+  intros K keqb key H1 H2 shards q. split.
+  - intros r d. now apply typerepo_memo_sound.
+  - now apply typerepo_memo_search.
+Qed.
+Print Assumptions C18_typerepo_memo_sound.
+
+(** ... and not with a key that forgets the members of a repository set, as query.Q.String() does (`count:N`, `size=N`):
+    in (or type:repo(repoids 7) type:repo(repoids 8)) the second atom would be answered with the first one's set. *)
+Theorem C18_typerepo_memo_refuted_noninjective_key :
+  exists shards q, sharded_search shards [fst (expand_memo N.eqb shape_key shards q [])] <> sharded_search shards [expand shards q].
+Proof.
+  exists memo_ex_shards, memo_ex_q. destruct typerepo_memo_shape_key_unsound as [E1 E2]. rewrite E1, E2. discriminate.
+Qed.
+Print Assumptions C18_typerepo_memo_refuted_noninjective_key.
+
 (** The code before the repair (/repo 823fc3f): a single-entry BranchesRepos on "HEAD" was always rewritten to
     Branch{HEAD, exact}; on a repository with branches [main, HEAD] that selects other files. *)
 Theorem C18_select_sound_refuted_before_fix :
@@ -105,6 +161,7 @@ Print Assumptions C18_select_sound_refuted_before_fix.
 
 (** ---- non-vacuity ---- *)
 Definition ex_repo (n i : N) (bs : list N) : repo := {| r_name := n; r_id := i; r_branches := bs; r_meta := 0 |}.
+Definition hd_shard (l : list shard) : shard := {| sh_known := true; sh_parts := [] |}.
 Definition ex_shards : list shard :=
   [ {| sh_known := true; sh_parts := [ (ex_repo 10 7 [HEAD; 2%N], [ {| d_id := 100; d_branches := [HEAD] |}; {| d_id := 101; d_branches := [2%N] |} ]) ] |};
     {| sh_known := true; sh_parts := [ (ex_repo 11 8 [HEAD], [ {| d_id := 110; d_branches := [HEAD] |} ]);
@@ -144,3 +201,21 @@ Example C18_nonvacuous_branches :
   sharded_search_br ex_shards [QOr2 (QBranchExact 2) (QOther (fun _ d => N.eqb (d_id d) 100)); QRepoPred (fun r => N.eqb (r_id r) 7)]
     = [(100, [HEAD]); (101, [2]); (102, [2])]%N.
 Proof. vm_compute. repeat split. Qed.
+
+(** the loops: a compound shard whose FIRST repository is selected and a later one is not is kept but blocks the rewrite *)
+Example C18_nonvacuous_loops :
+  has_repos (fun r => N.eqb (r_id r) 8) (sh_repos (nth 1 ex_shards (hd_shard ex_shards))) = (true, false) /\
+  (let '(sel, all) := select_loop (fun r => N.eqb (r_id r) 8) ex_shards in (length sel, all)) = (1, false) /\
+  (let '(sel, cs') := select ex_shards [QRepoPred (fun r => N.eqb (r_id r) 8)] in
+   (length sel, match cs' with [QRepoPred _] => true | _ => false end)) = (1, true) /\
+  sharded_search ex_shards [QRepoPred (fun r => N.eqb (r_id r) 8)] = [110]%N /\
+  (let '(sel, cs') := select ex_shards [QRepoPred (fun r => N.eqb (r_id r) 7)] in
+   (length sel, match cs' with [QConst true] => true | _ => false end)) = (2, true).
+Proof. vm_compute. repeat split. Qed.
+
+(** memo with an injective key (here: the key of a child is its position in a fixed enumeration of two children) *)
+Example C18_nonvacuous_memo :
+  sharded_search memo_ex_shards [expand memo_ex_shards memo_ex_q] = [100; 110]%N /\
+  sharded_search memo_ex_shards [fst (expand_memo N.eqb (fun _ => 0%N) memo_ex_shards
+      (QOr2 (QTypeRepo (QRepoPred (fun r => N.eqb (r_id r) 7))) (QTypeRepo (QRepoPred (fun r => N.eqb (r_id r) 7)))) [])] = [100]%N.
+Proof. vm_compute. split; reflexivity. Qed.
